@@ -16,6 +16,7 @@ fn alpha(cfg: &Cfg) -> Vec<Op> {
         t("\x7f"),
         t("é"),
         t("漢"),
+        t("\u{161}"),
         t(" "),
         t("bc"),
         c(Rep(None)),
@@ -109,9 +110,34 @@ fn charset_table(ctx: &Ctx, rep: &mut Report) {
             }
         }
     }
+    // every Unicode scalar >= 0x80 that prints (i.e. >= U+00A0) passes through both
+    // charsets unchanged: only 0x60-0x7e are ever remapped
+    use rayon::prelude::*;
+    let all: Vec<u32> = (0xa0u32..=0x10FFFF).filter(|c| char::from_u32(*c).is_some()).collect();
+    let bad: Vec<(u32, bool, char)> = all
+        .par_iter()
+        .filter_map(|&code| {
+            let ch = char::from_u32(code).unwrap();
+            for drawing in [true, false] {
+                let mut vt = build_vt(1, 1, Some(0));
+                let _ = vt.feed_str(if drawing { "\x1b(0" } else { "\x1b)0" });
+                vt.feed(ch);
+                let got = vt.view()[0].cells()[0].char();
+                if got != ch {
+                    return Some((code, drawing, got));
+                }
+            }
+            None
+        })
+        .collect();
+    n += all.len() as u64 * 2;
+    if let Some((code, drawing, got)) = bad.first() {
+        emit_violation(ctx, rep, "C04", json!({"part":"charset-table","code":code,"drawing":drawing,"slot":0,
+            "oracle":"only-0x60-0x7e-are-translated","observed":format!("U+{:04X} printed as {:?}", code, got)}));
+    }
     rep.evaluations += n;
     rep.traces_validated += n;
-    rep.parts.push(json!({"part":"charset-table","cases":n}));
+    rep.parts.push(json!({"part":"charset-table","cases":n,"all_scalars_from_U+00A0":all.len()}));
 }
 
 pub fn run(ctx: &Ctx) -> Report {
